@@ -315,3 +315,57 @@ pub fn copy<P: AsRef<Path>, Q: AsRef<Path>>(from: P, to: Q) -> io::Result<u64> {
 pub fn canonicalize<P: AsRef<Path>>(path: P) -> io::Result<PathBuf> {
     Ok(mach::norm(path.as_ref()))
 }
+
+/// One entry of `read_dir`.
+#[derive(Debug, Clone)]
+pub struct DirEntry {
+    path: PathBuf,
+}
+
+impl DirEntry {
+    pub fn path(&self) -> PathBuf {
+        self.path.clone()
+    }
+    pub fn file_name(&self) -> std::ffi::OsString {
+        self.path.file_name().map(|s| s.to_owned()).unwrap_or_default()
+    }
+    pub fn metadata(&self) -> io::Result<Metadata> {
+        metadata(&self.path)
+    }
+}
+
+pub struct ReadDir {
+    items: std::vec::IntoIter<PathBuf>,
+}
+
+impl Iterator for ReadDir {
+    type Item = io::Result<DirEntry>;
+    fn next(&mut self) -> Option<io::Result<DirEntry>> {
+        self.items.next().map(|path| Ok(DirEntry { path }))
+    }
+}
+
+pub fn read_dir<P: AsRef<Path>>(path: P) -> io::Result<ReadDir> {
+    match mach::step(OpKind::Metadata, 0)? {
+        mach::StepResult::Fault(e) => return Err(mach::errno(e)),
+        _ => {}
+    }
+    let dir = mach::norm(path.as_ref());
+    let items = mach::with(|m| {
+        if !m.disk.dirs.contains(&dir) {
+            return Err(mach::not_found());
+        }
+        Ok(m.disk.list(&dir))
+    })?;
+    Ok(ReadDir {
+        items: items.into_iter(),
+    })
+}
+
+pub fn remove_dir_all<P: AsRef<Path>>(_path: P) -> io::Result<()> {
+    Err(io::Error::from_raw_os_error(13))
+}
+
+pub fn exists<P: AsRef<Path>>(path: P) -> bool {
+    metadata(path).is_ok()
+}
